@@ -1,6 +1,21 @@
 """Property -> rules map.  `quick` rules run in both tiers; `thorough` adds the rest."""
 
 PROPS = {
+    "C19": {
+        "quick": ["R-PROTOCOL", "R-RESTORE", "R-FD-WRITEBACK", "R-SIBLING-EXC", "R-EFF-SEED"],
+        "thorough": [],
+        "technique": "static typestate analysis over the CFG of finite_difference with correlated-guard refinement; alias analysis",
+        "claim": "Decides the non-destructiveness and protocol clauses of C19 on every feasible path of "
+                 "finite_difference: reset -> seed -> sensitivity -> read -> reset per output and CLEAN at every normal "
+                 "exit; every perturbation of an input is undone from a saved fresh copy before the iterator advances; "
+                 "in-place edits of the local snapshot are written back before the next response(); the real and "
+                 "imaginary passes catch the same exceptions; the reference outputs and analytical sensitivities are "
+                 "fresh copies; no module mutates the seed array that finite_difference keeps for the numerical side. "
+                 "That the numerical value approximates the derivative (numeric) is not decided.",
+        "explanation": "Typestate automata (sensitivity protocol, perturb/restore per target, dirty/synced snapshot) run "
+                       "over the CFG of finite_difference; branches on the same un-reassigned flag (is_iterable) are "
+                       "analysed per flag value so that infeasible mixed paths are not reported.",
+    },
     "C02": {
         "quick": ["R-NET-ORDER", "R-ACCUMULATE", "R-SKIP-UNSEEDED", "R-COPY-FIRST", "R-SEED-ORDER"],
         "thorough": [],
